@@ -203,20 +203,24 @@ Definition separated_list1 {A B} (sep : parser B) (p : parser A) : parser (list 
 
 (* ---- number::complete::float: the recognised token ---- *)
 
-Definition sign_opt : parser (option byte) :=
-  opt (alt2 (char_ "+"%byte) (char_ "-"%byte)).
+(* Every leaf below returns the text it matched, so the token is rebuilt by
+   concatenation: this is nom's `recognize(tuple((..)))` (the consumed input) without
+   measuring the input twice per token. *)
+Definition cat2 (p q : parser str) : parser str :=
+  pmap (fun x => fst x ++ snd x) (pair_ p q).
+Definition opt_str (p : parser str) : parser str :=
+  pmap (fun o => match o with Some s => s | None => [] end) (opt p).
+Definition chr (c : byte) : parser str := pmap (fun b => [b]) (char_ c).
+Definition sign_str : parser str := opt_str (alt2 (chr "+"%byte) (chr "-"%byte)).
 
 (* recognize_float:
    [+-]? ( digit1 ('.' digit1?)? | '.' digit1 ) ( [eE] [+-]? cut(digit1) )? *)
 Definition recognize_float : parser str :=
-  recognize
-    (pair_ sign_opt
-      (pair_
-        (alt2
-           (pmap (fun _ => tt) (pair_ digit1 (opt (pair_ (char_ "."%byte) (opt digit1)))))
-           (pmap (fun _ => tt) (pair_ (char_ "."%byte) digit1)))
-        (opt (pair_ (alt2 (char_ "e"%byte) (char_ "E"%byte))
-                    (pair_ sign_opt (cut digit1)))))).
+  cat2 sign_str
+    (cat2
+       (alt2 (cat2 digit1 (opt_str (cat2 (chr "."%byte) (opt_str digit1))))
+             (cat2 (chr "."%byte) digit1))
+       (opt_str (cat2 (alt2 (chr "e"%byte) (chr "E"%byte)) (cat2 sign_str (cut digit1))))).
 
 (* recognize_float_or_exceptions: alt((recognize_float, "nan", "inf", "infinity")) with
    tag_no_case; "inf" is tried before "infinity" *)
